@@ -98,6 +98,13 @@ def stR (r : Except Exc String) : String := match r with
   | .ok s => "ok " ++ s
   | .error e => "err " ++ e.name
 def stBool (b : Bool) : String := if b then "true" else "false"
+/-- scripted stand-in for `json.loads` (C18, the json parser): what it does depends on the first character. -/
+def selftestLoads (s : String) : Except Exc Val :=
+  if s.startsWith "D" then .ok (Val.dict [(Val.str "t", Val.str s)])
+  else if s.startsWith "E" then .error ⟨"json.decoder.JSONDecodeError", s⟩
+  else if s.startsWith "L" then .ok (Val.list [Val.str s])
+  else if s.startsWith "N" then .ok Val.none
+  else .ok (Val.str s)
 '''
 
 
@@ -318,7 +325,42 @@ def cases_c18(rng, n, mods):
                 return common.canon(common.enc(r))
             out.append({'what': f'{p}.get_parsed_context({args!r})',
                         'lean': f'(Val.toJson ({Q}get_parsed_context {largs})).compress', 'py': py, 'kind': 'json'})
-    return out, [f'Generated.TranslatedParser{p.capitalize()}' for p in parsers]
+    # the json parser: `json.loads` of the module is replaced by a scripted function of ONE positional argument
+    # (the translated definition takes the same function as its parameter `loads`)
+    class ScriptedJson:
+        JSONDecodeError = json.JSONDecodeError
+
+        @staticmethod
+        def loads(s, /):
+            if s.startswith('D'):
+                return {'t': s}
+            if s.startswith('E'):
+                raise json.JSONDecodeError(s, s, 0)
+            if s.startswith('L'):
+                return [s]
+            return None if s.startswith('N') else s
+    for i in range(per):
+        args = None if i == 0 else [] if i == 1 else \
+            [rng.choice(['D', 'E', 'L', 'N', 'x', '']) + rng.choice(ARG_ATOMS)] + \
+            [rng.choice(ARG_ATOMS + ['l1\nl2', '\x01', 'ü']) for _ in range(rng.randint(0, 3))]
+        largs = lopt(args, lambda xs: llist(xs, lean_str))
+
+        def pyj(args=args):
+            import importlib
+            mod = importlib.import_module('pypyr.parser.json')
+            saved = mod.json
+            mod.json = ScriptedJson
+            try:
+                r = mod.get_parsed_context(None if args is None else list(args))
+                return 'ok ' + common.canon(common.enc(r))
+            except Exception as e:
+                return 'err ' + common.exc_name(e)
+            finally:
+                mod.json = saved
+        out.append({'what': f'json.get_parsed_context({args!r}) [scripted loads]',
+                    'lean': 'stR ((Pypyr.Translated.ParserJson.get_parsed_context ' + largs +
+                            ' selftestLoads).map (fun v => (Val.toJson v).compress))', 'py': pyj, 'kind': 'okjson'})
+    return out, [f'Generated.TranslatedParser{p.capitalize()}' for p in parsers + ['json']]
 
 
 FAMILIES = {'C06': cases_c06, 'C04': cases_c04, 'C07': cases_c07, 'C18': cases_c18}
@@ -334,6 +376,8 @@ def normalise(kind, text, side):
         if side == 'lean':
             return common.canon(json.loads(text))
         return text
+    if kind == 'okjson':
+        return 'ok ' + common.canon(json.loads(text[3:])) if side == 'lean' and text.startswith('ok ') else text
     if kind == 'nums' and side == 'lean' and text.startswith('ok'):
         return ('ok ' + ' '.join(norm_lean_num(t) for t in text.split()[1:])).rstrip()
     return text.rstrip() if kind == 'nums' else text
